@@ -223,6 +223,17 @@ class _Rename(ast.NodeTransformer):
 _REFCACHE = {}
 
 
+def normaliser_digest():
+    """Digest of the modules that determine the statement-context signatures:
+    the snapshot must have been taken with the same normaliser."""
+    import hashlib
+    h = hashlib.sha256()
+    for f in ("canon.py", "desugar.py", "alpha.py"):
+        with open(os.path.join(HERE, f), "rb") as fh:
+            h.update(fh.read())
+    return h.hexdigest()[:16]
+
+
 def reference():
     if "r" not in _REFCACHE:
         try:
@@ -230,6 +241,15 @@ def reference():
                 _REFCACHE["r"] = json.load(fh)
         except (OSError, ValueError):
             _REFCACHE["r"] = {}
+        ref = _REFCACHE["r"]
+        ver = ref.get("__normaliser__") if isinstance(ref, dict) else None
+        if ref and ver is not None and ver != normaliser_digest() and \
+                not os.environ.get("VERIF_NO_ALPHA"):
+            from .srcmodel import AnalysisError
+            raise AnalysisError(
+                "reference/locals.json was taken with a different version of "
+                "the normaliser (sa/canon.py, desugar.py, alpha.py): run "
+                "tools/snapshot_reference.py on the confirmed tree")
     return _REFCACHE["r"]
 
 
@@ -238,7 +258,7 @@ def normalise(qual, func):
     if os.environ.get("VERIF_NO_ALPHA"):
         return {}
     ref = reference().get(qual)
-    if not ref:
+    if not ref or not isinstance(ref, dict):
         return {}
     cur = local_names(func)
     if not (cur - set(ref)) or not (set(ref) - cur):
